@@ -164,6 +164,11 @@ def handle (st : St) (args : List String) (impl : String) : St × Verdict :=
     match ident? h, Switch.parse sw, nat? amount with
     | some _, some _, some _ => (st, cmpSpec "same" impl)
     | _, _, _ => (st, .unknown)
+  -- two different seeds (any lengths, long common prefixes): master key, public root key, commitment
+  -- and rewind nonce all differ (`different_seeds_different_master` under collision-freedom)
+  | "seedpair" :: _what :: _ => (st, cmpSpec "differ" impl)
+  -- a seed of any length makes a keychain
+  | ["seedlen", _len] => (st, cmpSpec "ok" impl)
   -- arithmetic
   | ["bsum", p, n] => match scalars? p, scalars? n with
     | some p, some n => (st, cmpSpec (secpBlindSum p n).show impl)
